@@ -5,6 +5,7 @@
 -/
 import EasyMl.Lemmas.Decomp
 import EasyMl.Lemmas.Arith
+import EasyMl.Lemmas.MatrixResize
 
 namespace EasyMl.Decomp
 open EasyMl.Arith
@@ -83,5 +84,38 @@ end c03
 /-- the transposed factor, cell by cell -/
 def transposeM {α : Type} [Zero α] (M : Matrix α) : Matrix α :=
   ofFn M.columns M.rows fun i j => get M j i
+
+section c11
+variable {α : Type} [Add α] [Mul α] [Zero α]
+
+theorem tryGet_eq_get {n m : ℕ} {M : Matrix α} (h : Shaped n m M) {i j : ℕ} (hi : i < n) (hj : j < m) :
+    M.tryGet i j = some (get M i j) := by
+  have := ofMatrix_hasEntries h i j (by simpa [MView.ofMatrix, h.1] using hi)
+    (by simpa [MView.ofMatrix, h.2.1] using hj)
+  simpa [MView.ofMatrix] using this
+
+/-- **C11's model of `Matrix::transpose`** (`from_fn((columns, rows), |(c, r)| self.get(r, c))`) on
+    a matrix satisfying the invariant is the cell-wise transpose `transposeM`. -/
+theorem transposeP_eq_transposeM (M : Matrix α) (h : M.Inv) :
+    M.transposeP = .ok (transposeM M) := by
+  rw [Matrix.transposeP_spec M h, Matrix.transpose_toRows M h]
+  congr 1
+  have hsh : Shaped M.rows M.columns M := ⟨rfl, rfl, h.1⟩
+  unfold Matrix.ofRows transposeM
+  have hrows : (List.map (fun c => List.filterMap (fun r => M.tryGet r c) (List.range M.rows))
+      (List.range M.columns))
+      = (List.range M.columns).map fun c => (List.range M.rows).map fun r => get M r c := by
+    apply List.map_congr_left
+    intro c hc
+    exact filterMap_range_some M.rows _ (fun r => get M r c)
+      (fun r hr => tryGet_eq_get hsh hr (List.mem_range.mp hc))
+  rw [hrows]
+  have hdata := flatMap_range_eq_ofFn_data' M.columns M.rows (fun i j => get M j i)
+  simp only [ofFn] at hdata ⊢
+  rw [Matrix.mk.injEq]
+  refine ⟨?_, by simp, rfl⟩
+  rw [← hdata, List.flatMap_def]
+
+end c11
 
 end EasyMl.Decomp
